@@ -16,7 +16,8 @@
 (***************************************************************************)
 EXTENDS Naturals, Sequences, FiniteSets, TLC
 
-CONSTANTS Algs,      \* signature algorithms, e.g. {"A", "B"}
+CONSTANTS ObjKind,   \* which structure the object is: "sign1" (tagged), "sign1u" (untagged) or "sig" (a COSE_Signature used on its own)
+          Algs,      \* signature algorithms, e.g. {"A", "B"}
           Keys,      \* key names, e.g. {"k1", "k2"}
           KidVals       \* values of the unprotected kid parameter, e.g. {0, 1}
 Exts == {"none", "e1"}             \* external data: nil/empty vs some bytes
@@ -65,15 +66,17 @@ DoVerify(o, w, a) ==
        IF c # "ok" THEN MRes(o, w, c)
        ELSE MRes(o, w, IF o.sig = MSig(a.key, MTbsOf(o, a.ext)) THEN "ok" ELSE "ErrVerification")
 
+\* a COSE_Signature carries no payload: the caller passes it to Sign / Verify ("payload" is then the argument the caller uses)
+WirePayload(o) == IF ObjKind = "sig" THEN "p1" ELSE o.payload
 DoMarshal(o, w) ==
   IF o.sig = NoSig THEN MRes(o, w, "ErrEmptySignature")
-  ELSE MRes(o, MWire(ProtOf(o), o.hasRaw /\ o.rwide, IF o.hasRawU THEN o.rukid ELSE o.ukid, o.payload, o.sig), "ok")
+  ELSE MRes(o, MWire(ProtOf(o), o.hasRaw /\ o.rwide, IF o.hasRawU THEN o.rukid ELSE o.ukid, WirePayload(o), o.sig), "ok")
 
 DoUnmarshal(o, w) ==
   IF ~w.present THEN MRes(o, w, "err")
   ELSE IF w.sig = NoSig THEN MRes(o, w, "ErrEmptySignature")                    \* a failed decode leaves the destination untouched
   ELSE MRes([palg |-> w.palg, hasRaw |-> TRUE, ralg |-> w.palg, rwide |-> w.wide, ukid |-> w.ukid, hasRawU |-> TRUE, rukid |-> w.ukid,
-          payload |-> w.payload, sig |-> w.sig], w, "ok")
+          payload |-> (IF ObjKind = "sig" THEN o.payload ELSE w.payload), sig |-> w.sig], w, "ok")
 
 \* caller edits (plain field assignments in Go)
 DoEdit(o, w, a) ==
@@ -88,7 +91,7 @@ DoRewire(o, w, a) ==
   ELSE CASE a.what = "palg"    -> MRes(o, [w EXCEPT !.palg = a.va], "ok")
          [] a.what = "wide"    -> MRes(o, [w EXCEPT !.wide = a.vb], "ok")          \* re-spelling of the protected bstr head: same content
          [] a.what = "ukid"    -> MRes(o, [w EXCEPT !.ukid = a.vk], "ok")
-         [] a.what = "payload" -> MRes(o, [w EXCEPT !.payload = a.vp], "ok")
+         [] a.what = "payload" -> MRes(o, IF ObjKind = "sig" THEN w ELSE [w EXCEPT !.payload = a.vp], "ok")
          [] a.what = "sig"     -> MRes(o, [w EXCEPT !.sig = IF a.vs = "junk" THEN Junk ELSE NoSig], "ok")
 
 Step(o, w, a) ==
